@@ -59,6 +59,11 @@ type Cfg struct {
 
 	Changelog []ChEntry // nil = none
 
+	// signing (absolute key-file paths; "" = not configured)
+	DebSigKey, DebSigKeyID, DebSigMethod, DebSigType, DebSigSigner string
+	RpmSigKey, RpmSigKeyID                                         string
+	ApkSigKey, ApkSigKeyName                                       string
+
 	Entries []Entry
 }
 
@@ -115,6 +120,8 @@ func (c *Cfg) M() M {
 		"ipk": M{"arch": c.IpkArch, "abi_version": c.IpkABI, "alternatives": alts, "auto_installed": c.IpkAuto, "essential": c.IpkEss,
 			"predepends": strs(c.IpkPredepends), "tags": strs(c.IpkTags), "fields": kvs(c.IpkFields)},
 		"changelog": ch, "has_changelog": c.Changelog != nil,
+		"sig": M{"deb_key": c.DebSigKey != "", "deb_key_id": c.DebSigKeyID, "deb_method": c.DebSigMethod, "deb_type": c.DebSigType, "deb_signer": c.DebSigSigner,
+			"rpm_key": c.RpmSigKey != "", "rpm_key_id": c.RpmSigKeyID, "apk_key": c.ApkSigKey != "", "apk_key_name": c.ApkSigKeyName},
 		"entries": entriesM(c.Entries),
 	}
 }
@@ -300,6 +307,15 @@ func (c *Cfg) YAML(root string) string {
 			sub.close()
 		}
 		c.scriptBlock(sub, root, "deb.", []string{"rules", "templates", "config"})
+		if c.DebSigKey != "" || c.DebSigType != "" || c.DebSigMethod != "" {
+			sub.open("signature")
+			sub.str("key_file", c.DebSigKey)
+			sub.str("key_id", c.DebSigKeyID)
+			sub.str("method", c.DebSigMethod)
+			sub.str("type", c.DebSigType)
+			sub.str("signer", c.DebSigSigner)
+			sub.close()
+		}
 		if sub.b.Len() > 0 {
 			w.line("deb:")
 			w.b.WriteString(sub.b.String())
@@ -316,6 +332,12 @@ func (c *Cfg) YAML(root string) string {
 		sub.str("buildhost", c.RpmBuildHost)
 		sub.list("prefixes", c.RpmPrefixes)
 		c.scriptBlock(sub, root, "rpm.", []string{"pretrans", "posttrans", "verify"})
+		if c.RpmSigKey != "" {
+			sub.open("signature")
+			sub.str("key_file", c.RpmSigKey)
+			sub.str("key_id", c.RpmSigKeyID)
+			sub.close()
+		}
 		if sub.b.Len() > 0 {
 			w.line("rpm:")
 			w.b.WriteString(sub.b.String())
@@ -326,6 +348,12 @@ func (c *Cfg) YAML(root string) string {
 		sub := &yw{ind: 1}
 		sub.str("arch", c.ApkArch)
 		c.scriptBlock(sub, root, "apk.", []string{"preupgrade", "postupgrade"})
+		if c.ApkSigKey != "" {
+			sub.open("signature")
+			sub.str("key_file", c.ApkSigKey)
+			sub.str("key_name", c.ApkSigKeyName)
+			sub.close()
+		}
 		if sub.b.Len() > 0 {
 			w.line("apk:")
 			w.b.WriteString(sub.b.String())
